@@ -790,6 +790,11 @@ func (p *Parser) doHeredocs() {
 			r.Hdoc = p.getWord()
 		}
 		if stop := p.hdocStops[len(p.hdocStops)-1]; stop != nil {
+			if quoted && p.r == runeEOF {
+				// The quoted body is read without p.next, so record
+				// that the input ended; the error is then incomplete.
+				p.tok = _EOF
+			}
 			p.posErr(r.Pos(), "unclosed here-document %#q", stop)
 		}
 		p.hdocStops = p.hdocStops[:len(p.hdocStops)-1]
